@@ -367,6 +367,13 @@ def rule_r2(facts, rep, rid="C09-R2"):
         guards = [p for p in c.parents(ins[0]) if p.get("k") == "if"]
         if guards and _cs(ap, guards[0]["c"]) == "self.id_eq(P1)" and _cs(ap, ins[0]["args"][0]) == "self.pre_sub_header_position()":
             okp = True
+    t_ap = _cs(ap, ap.body)
+    rec_all = re.search(r"\.map\(\|c0\|c0\.append_pre_header\(P1,P2(\.clone\(\))?\)\)", t_ap) is not None and ".filter(" not in t_ap
+    if okp and not rec_all:
+        rep.violation(rid, ap.def_ + "|recurses-into-every-child", "Tree::append_pre_header does not recurse into every child unconditionally (`children.map(|c| c.append_pre_header(target, new))`): "
+                      "a target below a child that is skipped (a list item under a list, a block in a quote) is never reached, so the inlined content is inserted nowhere while the inlined note is deleted", ap.loc)
+    elif okp:
+        rep.ok(rid, ap.def_ + "|recurses-into-every-child", "children.into_iter().map(|c| c.append_pre_header(target, new)).collect()", ap.loc)
     if okp:
         rep.ok(rid, key, "if id_eq(target) { children.insert(pre_sub_header_position(), new) }", ap.loc)
     else:
